@@ -51,15 +51,13 @@ pub fn get_or_create_resource_node(
                     DEFAULT_MAX_RESOURCE_AMOUNT
                 )
             }
-            RESOURCE_NODE_MAP.write().unwrap().insert(
-                res_name.clone(),
-                Arc::new(ResourceNode::new(res_name.clone(), *resource_type)),
-            );
+            // insert only if another thread has not created the node in the meantime, and return the
+            // node that is in the map (a second node would be an orphan nobody reads)
             RESOURCE_NODE_MAP
-                .read()
+                .write()
                 .unwrap()
-                .get(res_name)
-                .unwrap()
+                .entry(res_name.clone())
+                .or_insert_with(|| Arc::new(ResourceNode::new(res_name.clone(), *resource_type)))
                 .clone()
         }
     }
